@@ -74,7 +74,7 @@ func runC16(c *core.Ctx) {
 		}
 	}
 	r := c.Rng("random-trees")
-	for i, n := 0, c.Pick(150, 5000); i < n; i++ {
+	for i, n := 0, c.Pick(150, 40000); i < n; i++ {
 		rootDir := []string{"w", "/abs/w", "deep/er/w"}[r.Intn(3)]
 		b := newTreeBuilder(rootDir)
 		root := refRootSkeleton()
